@@ -30,7 +30,7 @@ def bfs(block, static, cfg, init, moves, to_init, limit=4000, tag="bfs"):
             case = {"block": block, "static": static, "cfg": cfg, "init": a, "steps": [step], "every": 1, "src": tag}
             if a is init and not cases:
                 case["root"] = True
-            if tag == "bfs-drawn":
+            if tag == "bfs-drawn" and len(cases) % 4 == 0:      # every fourth drawn edge is also replayed on a twin
                 case["twin"] = True
             cases.append(case)
             case["every"] = 0          # light observation (descriptor, applied method, returned values) ...
@@ -228,7 +228,7 @@ def gen_cnn(tier, rng):
     st = {"input_shape": [2, 16, 16], "num_outputs": 3, "layer_norm": False, "init_layers": False}
     cfg = {"min_hidden_layers": 1, "max_hidden_layers": 3, "min_channel_size": 4, "max_channel_size": 8}
     c, e = bfs("cnn", st, cfg, {"channels": [4], "kernels": [3], "strides": [1]}, cnn_moves(quick), cnn_to_init,
-               limit=30000)
+               limit=1600 if quick else 30000)
     cases += c; ex &= e
     st2 = {"input_shape": [1, 34, 30], "num_outputs": 2, "layer_norm": True, "init_layers": False}
     cfg2 = {"min_hidden_layers": 1, "max_hidden_layers": 2, "min_channel_size": 8, "max_channel_size": 24}
